@@ -6,6 +6,7 @@ import (
 	"sort"
 	"strings"
 
+	"golang.org/x/tools/go/callgraph"
 	"golang.org/x/tools/go/callgraph/cha"
 	"golang.org/x/tools/go/ssa"
 	"golang.org/x/tools/go/ssa/ssautil"
@@ -422,9 +423,10 @@ func (w *World) checkStables(decls []*stableDecl) {
 	cg := cha.CallGraph(w.prog)
 	w.cg = cg
 	w.paramFresh = sc.paramFresh
+	w.namedFuncTargets(fns)
 	for f, n := range cg.Nodes {
 		for _, e := range n.Out {
-			if e.Callee != nil && e.Callee.Func != nil {
+			if e.Callee != nil && e.Callee.Func != nil && w.cgEdgeOK(e) {
 				rev[e.Callee.Func] = append(rev[e.Callee.Func], f)
 			}
 		}
@@ -537,7 +539,7 @@ func (w *World) loopCallees(fn *ssa.Function, blocks map[*ssa.BasicBlock]bool) (
 	seen := map[*ssa.Function]bool{}
 	var out []*ssa.Function
 	for _, e := range n.Out {
-		if e.Site == nil || !blocks[e.Site.Block()] || e.Callee == nil || e.Callee.Func == nil {
+		if e.Site == nil || !blocks[e.Site.Block()] || e.Callee == nil || e.Callee.Func == nil || !w.cgEdgeOK(e) {
 			continue
 		}
 		f := e.Callee.Func
@@ -754,4 +756,115 @@ func (sc *stableChecker) freshParam(p *ssa.Parameter, fn *ssa.Function, depth in
 	sc.parMemo[key] = 1
 	sc.paramFresh[fn] = true
 	return true
+}
+
+// ---------------------------------------------------------------------------
+// Call-graph refinement for calls through values of NAMED function types declared in the loaded program.
+// CHA resolves a call through a func value to every address-taken function of that signature - for `func()` hooks that
+// is half the program. A value of a named func type T declared in a loaded package can only have been made by a
+// conversion to T in loaded code (ssa.ChangeType; reflection/unsafe aside - the stated closed-world assumption), so a
+// call through a value of static type T can only reach the functions / closures that are converted to T somewhere.
+// If some conversion to T has an operand that is not a function constant or closure, T is "open" and CHA's answer stands.
+
+type namedFuncInfo struct {
+	targets map[*ssa.Function]bool
+	open    bool
+}
+
+func (w *World) namedFuncTargets(fns []*ssa.Function) {
+	w.namedFn = map[*types.TypeName]*namedFuncInfo{}
+	loaded := map[*types.Package]bool{}
+	for _, pi := range w.pkgs {
+		loaded[pi.types] = true
+	}
+	get := func(t types.Type) *namedFuncInfo {
+		n, ok := t.(*types.Named)
+		if !ok || n.Obj().Pkg() == nil || !loaded[n.Obj().Pkg()] {
+			return nil
+		}
+		if _, isSig := n.Underlying().(*types.Signature); !isSig {
+			return nil
+		}
+		inf := w.namedFn[n.Obj()]
+		if inf == nil {
+			inf = &namedFuncInfo{targets: map[*ssa.Function]bool{}}
+			w.namedFn[n.Obj()] = inf
+		}
+		return inf
+	}
+	var add func(inf *namedFuncInfo, v ssa.Value, depth int)
+	add = func(inf *namedFuncInfo, v ssa.Value, depth int) {
+		switch x := v.(type) {
+		case *ssa.Function:
+			inf.targets[x] = true
+		case *ssa.MakeClosure:
+			if f, ok := x.Fn.(*ssa.Function); ok {
+				inf.targets[f] = true
+			} else {
+				inf.open = true
+			}
+		case *ssa.Const:
+			// nil
+		case *ssa.ChangeType:
+			if depth < 4 {
+				add(inf, x.X, depth+1)
+			} else {
+				inf.open = true
+			}
+		default:
+			// a value of another named func type of the program flows in: union with that type's targets is not
+			// tracked - be conservative
+			inf.open = true
+		}
+	}
+	for _, fn := range fns {
+		for _, b := range fn.Blocks {
+			for _, ins := range b.Instrs {
+				if ct, ok := ins.(*ssa.ChangeType); ok {
+					if inf := get(ct.Type()); inf != nil {
+						add(inf, ct.X, 0)
+					}
+				}
+				// a function constant / closure used directly at a position of the named type (no ChangeType)
+				if v, ok := ins.(ssa.Value); ok {
+					if mc, isMC := v.(*ssa.MakeClosure); isMC {
+						if inf := get(mc.Type()); inf != nil {
+							add(inf, mc, 0)
+						}
+					}
+				}
+			}
+		}
+	}
+}
+
+// cgEdgeOK: false for a CHA edge of a call through a value of a closed named func type to a function that is never
+// converted to that type.
+func (w *World) cgEdgeOK(e *callgraph.Edge) bool {
+	if e.Site == nil || w.namedFn == nil {
+		return true
+	}
+	cc := e.Site.Common()
+	if cc.IsInvoke() || cc.StaticCallee() != nil {
+		return true
+	}
+	n, ok := cc.Value.Type().(*types.Named)
+	if !ok {
+		return true
+	}
+	inf := w.namedFn[n.Obj()]
+	if inf == nil || inf.open {
+		// a named func type of the loaded program that is never converted to has no possible target except nil
+		if inf == nil {
+			if _, isSig := n.Underlying().(*types.Signature); isSig && n.Obj().Pkg() != nil {
+				for _, pi := range w.pkgs {
+					if pi.types == n.Obj().Pkg() {
+						return false
+					}
+				}
+			}
+		}
+		return true
+	}
+	return inf.targets[e.Callee.Func]
 }
